@@ -379,6 +379,8 @@ class Workflow(metaclass=WorkflowMeta):
 
         # Validate the workflow
         self._validate()
+        if self._disable_validation:
+            self._build_catch_error_routing()
 
         # Extract run_id before passing remaining kwargs to start event
         run_id = kwargs.pop("run_id", None)
@@ -432,6 +434,20 @@ class Workflow(metaclass=WorkflowMeta):
             validate_resources=validate_resources,
             force=True,  # Explicit validate() call should always run
         )
+
+    def _build_catch_error_routing(self) -> None:
+        """``@catch_error`` routing tables are runtime configuration, not a check:
+        they are needed even when graph validation is disabled."""
+        from .representation.validate import _collect_catch_error_handlers
+
+        try:
+            (
+                self._catch_error_handlers,
+                self._handler_for_step,
+            ) = _collect_catch_error_handlers(self._step_configs())
+        except WorkflowValidationError:
+            # Validation is disabled: keep running without handler routing.
+            pass
 
     def _validate(
         self,
